@@ -34,7 +34,7 @@ ASSUMPTIONS = [
     "isoelectric_point function per call; NaN / non-numeric pH is not judged (statement speaks of values outside [0,14])",
 ]
 REQUIRED = {"all": ["salted_objects", "sweep_points", "pH_zero_points", "pH_fourteen_points", "rejected_out_of_range", "pI_calls",
-                    "pI_outside_0_14", "pI_nothing_titrates", "pI_reused_as_pH", "pI_beyond_scale_reused_as_pH", "numpy_pH_values", "ordered_multi_object_pI"]}
+                    "pI_outside_0_14", "pI_nothing_titrates", "pI_reused_as_pH", "pI_beyond_scale_reused_as_pH", "one_titratable_residue_at_every_length", "numpy_pH_values", "ordered_multi_object_pI"]}
 NRANDOM = {"quick": 1200, "thorough": 6000}
 NPH = {"quick": 40, "thorough": 90}
 HI = {"quick": 150, "thorough": 400}
@@ -92,12 +92,20 @@ def cases(tier, seed):
         yield {"s": s, "o": rng.randrange(1 << 30)}
     for chain in (["RRRRRRRR", "GSGSGSGSGS", "AQNLMFW", "G"], ["GRRRGRRRKG", "G", "EEEE", "GSGS"], ["DDDDDDDD", "GSGSGS", "RRRR", "AAAA"]):
         yield {"chain": chain, "o": rng.randrange(1 << 30)}
+    # a single titratable residue in an otherwise inert chain, at every length 2 .. 260 (thorough 700)
+    r1 = gen.sub_rng(0, ID, "one_titratable")
+    for n in range(2, 261 if tier == "quick" else 701):
+        body = [r1.choice("GSQN")] * n
+        body[r1.randrange(n)] = r1.choice("KRHDECY")
+        yield {"s": "".join(body), "o": r1.randrange(1 << 30), "one": 1}
     for i in range(NRANDOM[tier]):
         cls = "titratable" if i % 3 == 0 else None
         yield {"s": gen.rand_seq(rng, cls, hi=HI[tier] if i % 4 == 0 else 50), "o": rng.randrange(1 << 30)}
 
 
 def judge(case, rep, S):
+    if case.get("one"):
+        rep.cnt("one_titratable_residue_at_every_length")
     if "chain" in case:
         # the pI of one object must not depend on which other objects were analysed before it in the same process
         for s in case["chain"]:
